@@ -12,6 +12,14 @@ func init() {
 	srcWatch := "\tif err := r.dynamicCache.Watch(\n\t\tctx, objectTemplate, sourceObj); err != nil {\n\t\treturn nil, false, fmt.Errorf(\"watching new source: %w\", err)\n\t}\n\n\tobjectKey := client.ObjectKeyFromObject(sourceObj)\n"
 	nsOverride := "\tif len(objectTemplate.ClientObject().GetNamespace()) > 0 {\n\t\tobject.SetNamespace(objectTemplate.ClientObject().GetNamespace())\n\t}\n"
 	freeBlock := "\t\tif err := controllers.FreeCacheAndRemoveFinalizer(\n\t\t\tctx, c.client, objectTemplate.ClientObject(), c.dynamicCache); err != nil {\n\t\t\treturn ctrl.Result{}, err\n\t\t}\n\t\treturn ctrl.Result{}, nil\n"
+	// the Invalid-condition literal of the mapper for one error class, and a helper that builds it
+	invLit := func(reason, errVar string) string {
+		return "\t\tmeta.SetStatusCondition(objectTemplate.GetConditions(), metav1.Condition{\n\t\t\tType:               corev1alpha1.ObjectTemplateInvalid,\n\t\t\tStatus:             metav1.ConditionTrue,\n\t\t\tObservedGeneration: objectTemplate.GetGeneration(),\n\t\t\tReason:             \"" + reason + "\",\n\t\t\tMessage:            " + errVar + ".Error(),\n\t\t})\n"
+	}
+	const invHelperAt = "var jsonRegexp = regexp.MustCompile("
+	invHelper := func(status, prologue string) string {
+		return "func invalidCondition(observedGeneration int64, reason, message string) metav1.Condition {\n" + prologue + "\treturn metav1.Condition{\n\t\tType:               corev1alpha1.ObjectTemplateInvalid,\n\t\tStatus:             " + status + ",\n\t\tObservedGeneration: observedGeneration,\n\t\tReason:             reason,\n\t\tMessage:            message,\n\t}\n}\n\n"
+	}
 	addMutants(
 		// ---- R1
 		Mutant{Prop: "C18", Name: "r1-source-read-without-watch", File: tr,
@@ -145,6 +153,31 @@ func init() {
 			Old: "fmt.Errorf(\"handling creation: %w\", err)",
 			New: "fmt.Errorf(\"handling creation: %v\", err)",
 			Why: "handleCreation cannot return a SourceError/TemplateError"},
+
+		// the Invalid condition built by a helper / by field assignments instead of a literal at the call
+		Mutant{Prop: "C18", Name: "r4-benign-invalid-condition-from-helper", File: tr, Benign: true,
+			Old: invLit("SourceError", "sourceError"),
+			New: "\t\tmeta.SetStatusCondition(objectTemplate.GetConditions(),\n\t\t\tinvalidCondition(objectTemplate.GetGeneration(), \"SourceError\", sourceError.Error()))\n",
+			More: []Edit{{File: tr, Old: invLit("TemplateError", "templateError"), New: "\t\tmeta.SetStatusCondition(objectTemplate.GetConditions(),\n\t\t\tinvalidCondition(objectTemplate.GetGeneration(), \"TemplateError\", templateError.Error()))\n"},
+				{File: tr, Old: invHelperAt, New: invHelper("metav1.ConditionTrue", "") + invHelperAt}}},
+		Mutant{Prop: "C18", Name: "r4-benign-invalid-condition-field-assigned", File: tr, Benign: true,
+			Old: invLit("SourceError", "sourceError"),
+			New: "\t\tconds := objectTemplate.GetConditions()\n\t\tvar cond metav1.Condition\n\t\tcond.Type = corev1alpha1.ObjectTemplateInvalid\n\t\tcond.Status = metav1.ConditionTrue\n\t\tcond.ObservedGeneration = objectTemplate.GetGeneration()\n\t\tcond.Reason = \"SourceError\"\n\t\tcond.Message = sourceError.Error()\n\t\tmeta.SetStatusCondition(conds, cond)\n"},
+		Mutant{Prop: "C18", Name: "r4-helper-built-condition-is-false", File: tr,
+			Old: invLit("SourceError", "sourceError"),
+			New: "\t\tmeta.SetStatusCondition(objectTemplate.GetConditions(),\n\t\t\tinvalidCondition(objectTemplate.GetGeneration(), \"SourceError\", sourceError.Error()))\n",
+			More: []Edit{{File: tr, Old: invLit("TemplateError", "templateError"), New: "\t\tmeta.SetStatusCondition(objectTemplate.GetConditions(),\n\t\t\tinvalidCondition(objectTemplate.GetGeneration(), \"TemplateError\", templateError.Error()))\n"},
+				{File: tr, Old: invHelperAt, New: invHelper("metav1.ConditionFalse", "") + invHelperAt}},
+			Expect: []string{"C18.R4@internal/controllers/objecttemplate.setObjectTemplateConditionBasedOnError#Invalid-SourceError", "C18.R4@internal/controllers/objecttemplate.setObjectTemplateConditionBasedOnError#Invalid-TemplateError"}},
+		Mutant{Prop: "C18", Name: "r4-helper-built-condition-of-another-type-on-one-return", File: tr,
+			Old:    invLit("SourceError", "sourceError"),
+			New:    "\t\tmeta.SetStatusCondition(objectTemplate.GetConditions(),\n\t\t\tinvalidCondition(objectTemplate.GetGeneration(), \"SourceError\", sourceError.Error()))\n",
+			More:   []Edit{{File: tr, Old: invHelperAt, New: invHelper("metav1.ConditionTrue", "\tif len(message) > 1024 {\n\t\treturn metav1.Condition{Type: corev1alpha1.ObjectTemplateInvalid + \"Message\", Status: metav1.ConditionTrue, ObservedGeneration: observedGeneration, Reason: reason}\n\t}\n") + invHelperAt}},
+			Expect: []string{"C18.R4@internal/controllers/objecttemplate.setObjectTemplateConditionBasedOnError#Invalid-SourceError"}},
+		Mutant{Prop: "C18", Name: "r4-field-assigned-condition-status-not-on-every-path", File: tr,
+			Old:    invLit("SourceError", "sourceError"),
+			New:    "\t\tconds := objectTemplate.GetConditions()\n\t\tvar cond metav1.Condition\n\t\tcond.Type = corev1alpha1.ObjectTemplateInvalid\n\t\tif sourceError.Err != nil {\n\t\t\tcond.Status = metav1.ConditionTrue\n\t\t}\n\t\tcond.ObservedGeneration = objectTemplate.GetGeneration()\n\t\tcond.Reason = \"SourceError\"\n\t\tcond.Message = sourceError.Error()\n\t\tmeta.SetStatusCondition(conds, cond)\n",
+			Expect: []string{"C18.R4@internal/controllers/objecttemplate.setObjectTemplateConditionBasedOnError#Invalid-SourceError"}},
 
 		// ---- R5
 		Mutant{Prop: "C18", Name: "r5-finalizer-removed-without-free", File: tc,
